@@ -15,6 +15,8 @@ import (
 func init() { register("C20", checkC20) }
 
 func checkC20(p *load.Program, r *kit.Report) {
+	r.Rule("SWAP-SHAPE", "PeerList.Swap exchanges the two slice elements, it does not write through them", 1)
+	checkSwapSwapsElements(p, r, "SWAP-SHAPE")
 	r.Rule("CLEAR-RESETS", "Clear resets list and lookup on every path, whatever the removal of the stored file answers", 2)
 	checkClearAlwaysResets(p, r, "CLEAR-RESETS")
 	r.NotDecided = "score sums over histories, the shuffle, concurrent histories beyond the atomicity of each method, byte-equality of a round trip."
